@@ -90,11 +90,18 @@ def obj_path(o):
 def entity_of(o):
     m = sf()
     if hasattr(o, "retvar"):
-        return ("func", obj_path(o), strip_type(o.retvar.full_type), hasattr(o, "all_types"))
+        ts = strip_type(o.retvar.full_type)
+        if hasattr(o, "all_types") and ts not in o.all_types:
+            ts = "?" + ts          # the function's own table does not know the type: the walk stops there
+        return ("func", obj_path(o), ts, hasattr(o, "all_types"))
     if isinstance(o, m.FortranType):
         return ("type", o.name.lower())
     if isinstance(o, m.FortranVariable):
-        return ("var", strip_type(o.full_type), bool(getattr(o.parent, "all_types", {})))
+        ts = strip_type(o.full_type)
+        pat = getattr(o.parent, "all_types", {})
+        if pat and ts not in pat:
+            ts = "?" + ts          # the table of the variable's parent does not know the type
+        return ("var", ts, bool(pat))
     return ("proc", obj_path(o))
 
 
